@@ -63,6 +63,7 @@ func genC08(t *core.Tape, tier string) *Scenario {
 		}
 	}
 	fixCompat(&c, &h)
+	sc.AlgoYield = t.Bool(1, 2, "algo.yield")
 	h.ReadMax, c.ReadMax = 1<<20, 1<<20
 	sc.Handlers = []HandlerCfg{h}
 	sc.Clients = []ClientCfg{c}
@@ -99,8 +100,11 @@ func genC08(t *core.Tape, tier string) *Scenario {
 			alg := supportedBy(&h)[t.Choose(1+len(h.Comp), "raw.alg")]
 			payload := ref.EncodeBytesValue(codec, compressible(t, 200))
 			comp := compressWith(alg, payload)
-			kind := t.Choose(4, "corrupt.kind")
+			kind := t.Choose(5, "corrupt.kind")
 			switch kind {
+			case 4: // only the trailing checksum is wrong: the data decompresses, the final Read fails
+				comp = append([]byte(nil), comp...)
+				comp[len(comp)-2] ^= 0x01
 			case 0:
 				comp = append([]byte(nil), comp...)
 				comp[len(comp)/2] ^= 0x5a
@@ -135,8 +139,11 @@ func genC08(t *core.Tape, tier string) *Scenario {
 			alg := append([]string{"gzip"}, c.Accept...)[t.Choose(1+len(c.Accept), "can.alg")]
 			payload := ref.EncodeBytesValue(codec, compressible(t, 200))
 			comp := compressWith(alg, payload)
-			kind := t.Choose(3, "corrupt.kind")
+			kind := t.Choose(4, "corrupt.kind")
 			switch kind {
+			case 3:
+				comp = append([]byte(nil), comp...)
+				comp[len(comp)-2] ^= 0x01
 			case 0:
 				comp = append([]byte(nil), comp...)
 				comp[len(comp)/2] ^= 0x5a
@@ -418,6 +425,12 @@ func checkC08(w *World, st core.Status, r *RunResult) []Violation {
 	}
 	if w.pools.stats.CompReuse > 0 {
 		r.Probes["histories_with_pool_reuse"]++
+	}
+	if n := w.pools.stats.DoublePutComp; n > 0 {
+		vs = append(vs, Violation{Class: "C08/pool-double-put/compressor", Msg: fmt.Sprintf("a (de)compressor was returned to its pool %d time(s) while already in it (history: %v): two later calls will share it", n, badList(w))})
+	}
+	if n := w.pools.stats.DoublePutBuf; n > 0 {
+		vs = append(vs, Violation{Class: "C08/pool-double-put/buffer", Msg: fmt.Sprintf("a buffer was returned to its pool %d time(s) while already in it", n)})
 	}
 	return vs
 }
